@@ -80,7 +80,8 @@ struct Op { int dir; uint32 M; int policy; uint32 arg; };   // M == 0: no maxByt
 struct EWorld {
    const Spec * spec; int specIdx; bool built;
    AbstractMessageIOGatewayRef gw; ScriptIO io; Collector col; std::string outcome;
-   EWorld() : spec(NULL), specIdx(-1), built(false) {}
+   uint64_t hist; std::vector<int> deferred;   // see EndpointModel::Apply (replay short-cut)
+   EWorld() : spec(NULL), specIdx(-1), built(false), hist(0) {}
    ~EWorld() { if (gw()) gw()->SetDataIO(DataIORef()); }
 };
 
@@ -133,7 +134,13 @@ public:
       Add(0, 0, P_DRAIN, 0);
    }
 
-   void Init(World & w, int s) const { w.spec = &specs[(size_t)s]; w.specIdx = s; }   // the gateway is built lazily (statically disabled ops cost nothing)
+   // Replay short-cut (pure optimisation, same verdicts): within one process a history that was already executed with status OK is not
+   // executed again when it recurs as the PREFIX of another history; its ops are deferred, and executed for real only if the new last op
+   // turns out to be enabled (its enabledness depends only on the stream offsets reached by the prefix, which the memo holds).
+   struct Memo { uint32 nOut, nIn; };
+   mutable std::unordered_map<uint64_t, Memo> memo;
+   static uint64_t MixH(uint64_t h, uint64_t v) { return verif::Mix64(h * 0x9E3779B97F4A7C15ULL + v + 0x7F4A7C15ULL); }
+   void Init(World & w, int s) const { w.spec = &specs[(size_t)s]; w.specIdx = s; w.hist = MixH(0x1234, (uint64_t)s); Memo m0 = {0, 0}; memo[w.hist] = m0; }   // the gateway is built lazily (statically disabled ops cost nothing)
    void Build(World & w) const
    {
       const Spec & sp = *w.spec;
@@ -173,10 +180,48 @@ public:
       if (!sp.kind.IsWs() && out.size() < sp.refOut.size() && !w.gw()->HasBytesToOutput()) { msg = verif::Fmt("HasBytesToOutput() is false although only %u of %u bytes were emitted", (unsigned)out.size(), (unsigned)sp.refOut.size()); key = kk + ":sender-stalls" + ctx; return false; }
       return true;
    }
+   // enabledness that depends on the offsets reached so far; also resolves the transfer pattern of the call
+   bool DynEnabled(const Spec & sp, const Op & o, uint32 nOut, uint32 nIn, long & budget, int & first, int & pol) const
+   {
+      if (o.policy == P_DRAIN) return true;
+      const uint32 n = (o.dir == D_OUT) ? nOut : nIn, B = sp.B(o.dir), rem = B - n;
+      budget = -1; first = -1; pol = POLICY_ALL;
+      // long streams are explored sparsely: irregular moves start only at a selected offset (else every offset would be reached step by step)
+      const bool onTarget = !sp.sparse[o.dir] || n == 0 || std::binary_search(sp.targets[o.dir].begin(), sp.targets[o.dir].end(), n);
+      const bool irregular = (o.M != 0) || (o.policy == P_REL && o.arg > 0) || o.policy == P_FIRST || o.policy == P_FIRST_THEN_ALL;
+      if (irregular && !onTarget) return false;
+      switch (o.policy) {
+      case P_TARGET: if (o.arg <= n) return false; budget = (long)(o.arg - n); break;
+      case P_SPARSE: { const uint32 t = sp.targets[o.dir][o.arg]; if (t <= n || t > B) return false; budget = (long)(t - n); break; }
+      case P_REL: if (o.arg > 0 && (rem == 0 || o.arg > rem)) return false; budget = (long)o.arg; break;
+      case P_FIRST: if (rem == 0) return false; first = (int)o.arg; pol = POLICY_BLOCK; break;
+      case P_FIRST_THEN_ALL: if (rem <= o.arg) return false; first = (int)o.arg; break;
+      case P_UNIFORM: if (rem == 0 && !(o.arg == 1 && o.M == 0)) return false; pol = (int)o.arg; break;
+      }
+      return true;
+   }
+   bool Flush(World & w, std::string & msg, std::string & key) const
+   {
+      std::vector<int> d; d.swap(w.deferred);
+      for (size_t i = 0; i < d.size(); i++) if (ApplyReal(w, d[i], msg, key) != seqx::SEQX_OK) { msg = "harness: deferred prefix op not OK on execution: " + msg; key = "harness:deferred-replay"; return false; }
+      return true;
+   }
    int Apply(World & w, int opi, std::string & msg, std::string & key) const
    {
       const Op & o = ops[(size_t)opi]; const Spec & sp = *w.spec;
       if (!StaticEnabled(sp, o)) return seqx::SEQX_DISABLED;
+      const uint64_t hNew = MixH(w.hist, (uint64_t)opi + 1);
+      if (memo.count(hNew)) { w.deferred.push_back(opi); w.hist = hNew; return seqx::SEQX_OK; }
+      std::unordered_map<uint64_t, Memo>::const_iterator pm = memo.find(w.hist);
+      if (pm != memo.end()) { long b; int f, p; if (!DynEnabled(sp, o, pm->second.nOut, pm->second.nIn, b, f, p)) return seqx::SEQX_DISABLED; }
+      if (!Flush(w, msg, key)) return -1;
+      const int st = ApplyReal(w, opi, msg, key);
+      if (st == seqx::SEQX_OK) { w.hist = hNew; Memo m = { (uint32)w.io.out.size(), (uint32)w.io.inPos }; memo[hNew] = m; }
+      return st;
+   }
+   int ApplyReal(World & w, int opi, std::string & msg, std::string & key) const
+   {
+      const Op & o = ops[(size_t)opi]; const Spec & sp = *w.spec;
       if (!w.built) Build(w);
       AbstractMessageIOGateway & g = *w.gw(); const std::string kk = KindKey(sp.kind);
       const uint32 out0 = (uint32)w.io.out.size(), in0 = (uint32)w.io.inPos;
@@ -198,17 +243,10 @@ public:
          w.outcome = verif::Fmt("drain %u/%u d=%u", (unsigned)(w.io.out.size() - out0), (unsigned)(w.io.inPos - in0), (unsigned)w.col.flats.size());
          return seqx::SEQX_OK;
       }
-      const uint32 n = (o.dir == D_OUT) ? out0 : in0, B = sp.B(o.dir), rem = B - n;
+      const uint32 n = (o.dir == D_OUT) ? out0 : in0, B = sp.B(o.dir);
       Dir & d = (o.dir == D_OUT) ? w.io.wr : w.io.rd;
       long budget = -1; int first = -1, pol = POLICY_ALL;
-      switch (o.policy) {
-      case P_TARGET: if (o.arg <= n) return seqx::SEQX_DISABLED; budget = (long)(o.arg - n); break;
-      case P_SPARSE: { const uint32 t = sp.targets[o.dir][o.arg]; if (t <= n || t > B) return seqx::SEQX_DISABLED; budget = (long)(t - n); break; }
-      case P_REL: if (o.arg > 0 && (rem == 0 || o.arg > rem)) return seqx::SEQX_DISABLED; budget = (long)o.arg; break;
-      case P_FIRST: if (rem == 0) return seqx::SEQX_DISABLED; first = (int)o.arg; pol = POLICY_BLOCK; break;
-      case P_FIRST_THEN_ALL: if (rem <= o.arg) return seqx::SEQX_DISABLED; first = (int)o.arg; break;
-      case P_UNIFORM: if (rem == 0 && !(o.arg == 1 && o.M == 0)) return seqx::SEQX_DISABLED; pol = (int)o.arg; break;
-      }
+      if (!DynEnabled(sp, o, out0, in0, budget, first, pol)) return seqx::SEQX_DISABLED;
       const std::string ph = Phase(w);
       const std::string ctx = std::string(o.dir == D_OUT ? ":DoOutput" : ":DoInput") + ph;
       ArmDir(d, first, pol, budget);
@@ -230,13 +268,19 @@ public:
    // Canonical form: which spec, bytes emitted / consumed so far, everything the gateway's I/O routines read besides the stream
    // (see C03_kinds.h Canon*), number and digest of the delivered Messages.  zlib stream states are functions of the number of Messages
    // deflated/inflated so far (the gateways only ever (de)compress whole Message bodies), which the key contains (queue length, delivered count).
-   void Canon(const World & w, std::string & out) const
+   void Canon(const World & cw, std::string & out) const
    {
+      World & w = const_cast<World &>(cw);
+      if (!w.deferred.empty()) { std::string m, k; if (!Flush(w, m, k)) { out = "deferred-replay-failed:" + m; return; } }
       out = verif::Fmt("spec%d", w.specIdx);
       if (!w.built) { out += "|unbuilt"; return; }
       out += verif::Fmt("|o%u i%u", (unsigned)w.io.out.size(), (unsigned)w.io.inPos);
       w.spec->kind.Canon(*w.gw(), out);
-      const verif::Hash128 h = verif::HashStr(JoinLen(w.col.flats)); out += verif::Fmt("|d%u:", (unsigned)w.col.flats.size()) + verif::Hex(&h, sizeof(h));
+      // delivered so far, at the granularity the gateway type defines (how lines / chunks were grouped into Messages depends on the
+      // segmentation by design and does not influence the gateway's future)
+      std::string dl; size_t cnt = 0;
+      switch (w.spec->kind.Gran()) { case G_MESSAGES: dl = JoinLen(w.col.flats); cnt = w.col.flats.size(); break; case G_LINES: dl = JoinLen(w.col.lines); cnt = w.col.lines.size(); break; case G_BYTES: dl = Concat(w.col.chunks); cnt = dl.size(); break; case G_FRAMES: dl = JoinLen(w.col.chunks); cnt = w.col.chunks.size(); break; }
+      const verif::Hash128 h = verif::HashStr(dl); out += verif::Fmt("|d%u:", (unsigned)cnt) + verif::Hex(&h, sizeof(h));
    }
    void Outcome(const World & w, std::string & out) const { out = w.outcome; }
 };
@@ -315,8 +359,8 @@ struct WsScenario {
    std::string cRef, sRef;               // reference output streams of client / server (handshake text + frames)
    std::string cRfc;                     // the client's stream as RFC 6455 prescribes it (harness encoder, same keys, same payloads)
    std::vector<std::string> cFlats, sFlats, cItems, sItems; std::vector<uint32> cBounds, sBounds;   // units and where they end in cRfc / sRef
-   std::string failKey, failMsg; bool c2sOk, s2cOk;
-   WsScenario() : slave(true), enc(MUSCLE_MESSAGE_ENCODING_DEFAULT), ping(false), c2sOk(false), s2cOk(false) {}
+   std::string failKey, failMsg; bool c2sOk, s2cOk, cRfcOk;
+   WsScenario() : slave(true), enc(MUSCLE_MESSAGE_ENCODING_DEFAULT), ping(false), c2sOk(false), s2cOk(false), cRfcOk(true) {}
    Kind K(bool client) const { Kind k; k.id = client ? K_WS_CLIENT : K_WS_SERVER; k.wsSlave = slave; k.encTable.push_back(enc); k.name = client ? "websocket-client" : "websocket-server"; return k; }
 };
 // parses RFC 6455 frames starting at `off`; appends the end offset of every frame
@@ -376,8 +420,10 @@ static void PrepareWsInChild(WsScenario & w)
    std::vector<uint32> ends; std::vector<std::string> keys, wire;
    if (!WsFrameEnds(w.cRef, cHdr + 4, ends, &keys, &wire)) { w.failKey = "websocket:fault-free:client-stream-not-parsable"; w.failMsg = "the client's output after the handshake is not a sequence of RFC 6455 frames"; return; }
    std::vector<std::string> plain;
-   if (w.slave) { for (size_t i = 0; i < w.cOut.msgs.size(); i++) { Kind bk; bk.id = K_BIN; bk.encTable.push_back(w.enc); Outgoing one; one.msgs.push_back(w.cOut.msgs[i]); std::string st; std::vector<uint32> wo; std::string e2; RunSenderUnsegmented(bk, one, st, wo, NULL, e2); plain.push_back(st); } }
-   else plain = w.cItems;
+   if (w.slave) {   // what a MessageIOGateway with the slave's encoding emits for the whole sequence (zlib state carries over), split at its Write boundaries
+      Kind bk; bk.id = K_BIN; bk.encTable.push_back(w.enc); std::string st, e2; std::vector<uint32> wo; RunSenderUnsegmented(bk, w.cOut, st, wo, NULL, e2);
+      for (size_t i = 0; i < wo.size(); i++) plain.push_back(st.substr(wo[i], ((i + 1 < wo.size()) ? wo[i + 1] : (uint32)st.size()) - wo[i]));
+   } else plain = w.cItems;
    if (ends.size() != plain.size()) { w.failKey = "websocket:fault-free:frame-count"; w.failMsg = verif::Fmt("client emitted %u frames for %u payloads", (unsigned)ends.size(), (unsigned)plain.size()); return; }
    w.cRfc = w.cRef.substr(0, cHdr + 4);
    bool reversedKeyExplains = !plain.empty(), conforming = true;
@@ -392,13 +438,20 @@ static void PrepareWsInChild(WsScenario & w)
       w.failKey = "websocket:client-to-server:not-delivered";
       if (!conforming) w.failMsg += std::string("; root cause check: un-masking the client's payload with the key octets AS TRANSMITTED (RFC 6455 5.3) does NOT give the payload, ") + (reversedKeyExplains ? "un-masking with the key octets in REVERSE order does: CreateReplyFrame writes the mask as a big-endian uint32 but XORs with its bytes in native (little-endian) order" : "and neither does the reversed key");
    } else if (!conforming) { w.failKey = "websocket:client-frames-not-rfc6455"; w.failMsg = "client frames are not masked with the transmitted key octets although the server decoded them"; }
+   {  // the server must decode the RFC-conforming client stream (fault-free, everything available at once)
+      Kind sk = w.K(false); Collector col; AbstractMessageIOGatewayRef gw; ScriptIO io; std::string e3; RunReceiverUnsegmented(sk, w.cRfc, col, gw, io, e3);
+      const bool ok = e3.empty() && (w.slave ? (col.flats == w.cFlats) : (col.chunks == w.cItems));
+      if (gw()) gw()->SetDataIO(DataIORef());
+      if (!ok && w.failKey.empty()) { w.failKey = "websocket:fault-free:server-rejects-rfc6455-client-stream"; w.failMsg = "server fed with an RFC 6455 conforming client stream: " + (e3.empty() ? verif::Fmt("delivered %u units of %u", (unsigned)(w.slave ? col.flats.size() : col.chunks.size()), (unsigned)(w.slave ? w.cFlats.size() : w.cItems.size())) : e3); }
+      if (!ok) { w.cRfcOk = false; }
+   }
    // server -> client units
    std::vector<uint32> sEnds; if (!WsFrameEnds(w.sRef, sHdr + 4, sEnds)) { w.failKey = "websocket:fault-free:server-stream-not-parsable"; w.failMsg = "the server's output after the handshake is not a sequence of RFC 6455 frames"; return; }
    w.sBounds = sEnds;
    if (!w.s2cOk && w.failKey.empty()) { w.failKey = "websocket:server-to-client:not-delivered"; w.failMsg = "fault-free unsegmented exchange: the client did not deliver what the server sent"; }
 }
-static void SerializeWs(const WsScenario & w, std::string & r) { PutStr(r, w.cRef); PutStr(r, w.sRef); PutStr(r, w.cRfc); PutStrs(r, w.cFlats); PutStrs(r, w.sFlats); PutStrs(r, w.cItems); PutStrs(r, w.sItems); PutVec(r, w.cBounds); PutVec(r, w.sBounds); PutStr(r, w.failKey); PutStr(r, w.failMsg); r += (char)(w.c2sOk ? 1 : 0); r += (char)(w.s2cOk ? 1 : 0); }
-static bool DeserializeWs(WsScenario & w, const std::string & r) { size_t o = 0; if (!(GetStr(r, o, w.cRef) && GetStr(r, o, w.sRef) && GetStr(r, o, w.cRfc) && GetStrs(r, o, w.cFlats) && GetStrs(r, o, w.sFlats) && GetStrs(r, o, w.cItems) && GetStrs(r, o, w.sItems) && GetVec(r, o, w.cBounds) && GetVec(r, o, w.sBounds) && GetStr(r, o, w.failKey) && GetStr(r, o, w.failMsg)) || o + 2 > r.size()) return false; w.c2sOk = r[o] != 0; w.s2cOk = r[o + 1] != 0; return true; }
+static void SerializeWs(const WsScenario & w, std::string & r) { PutStr(r, w.cRef); PutStr(r, w.sRef); PutStr(r, w.cRfc); PutStrs(r, w.cFlats); PutStrs(r, w.sFlats); PutStrs(r, w.cItems); PutStrs(r, w.sItems); PutVec(r, w.cBounds); PutVec(r, w.sBounds); PutStr(r, w.failKey); PutStr(r, w.failMsg); r += (char)(w.c2sOk ? 1 : 0); r += (char)(w.s2cOk ? 1 : 0); r += (char)(w.cRfcOk ? 1 : 0); }
+static bool DeserializeWs(WsScenario & w, const std::string & r) { size_t o = 0; if (!(GetStr(r, o, w.cRef) && GetStr(r, o, w.sRef) && GetStr(r, o, w.cRfc) && GetStrs(r, o, w.cFlats) && GetStrs(r, o, w.sFlats) && GetStrs(r, o, w.cItems) && GetStrs(r, o, w.sItems) && GetVec(r, o, w.cBounds) && GetVec(r, o, w.sBounds) && GetStr(r, o, w.failKey) && GetStr(r, o, w.failMsg)) || o + 3 > r.size()) return false; w.c2sOk = r[o] != 0; w.s2cOk = r[o + 1] != 0; w.cRfcOk = r[o + 2] != 0; return true; }
 
 // ================================================================================================ scenario lists
 static const int32 ENC_D = MUSCLE_MESSAGE_ENCODING_DEFAULT;
@@ -429,7 +482,7 @@ static void BuildScenarios(bool thorough, std::vector<Scenario> & bin, std::vect
    for (int e = 0; e < 10; e++) {
       const int32 enc = (e == 0) ? ENC_D : ENC_Z(e);
       for (size_t q = 0; q < seqs.size(); q++) {
-         const bool core = (e == 0 || e == 1 || e == 6 || e == 9) || q == 1 || q == 2;   // quick: 4 encodings x all sequences, all 10 encodings x the two dictionary sequences
+         const bool core = (e == 0 || e == 6) || q == 1;   // quick: default and zlib6 x all sequences, every other encoding x the dictionary sequence
          if (!thorough && !core) continue;
          Scenario s; s.kind = BinKind(std::vector<int32>(1, enc)); s.out.msgs = seqs[q].msgs; s.name = s.kind.name + " " + seqs[q].name; bin.push_back(s);
       }
@@ -470,18 +523,18 @@ static void BuildScenarios(bool thorough, std::vector<Scenario> & bin, std::vect
       for (int m = 0; m < 3; m++) {
          Scenario s; s.kind.id = K_RAW; s.kind.minChunk = mins[m]; s.kind.maxChunk = maxs[m]; s.kind.name = verif::Fmt("raw[min=%u,max=%s]", mins[m], maxs[m] == MUSCLE_NO_LIMIT ? "none" : "3");
          std::vector<std::string> a; a.push_back(BL("ab\xC0")); a.push_back(BL("\xDB")); s.out.items.push_back(a);
-         std::vector<std::string> b; b.push_back(""); b.push_back(BL("cd\0fg\xDC\xDD")); s.out.items.push_back(b);
+         std::vector<std::string> b; b.push_back(BL("cd\0fg\xDC\xDD")); s.out.items.push_back(b);
          s.out.items.push_back(SV()); s.out.items.push_back(SV("h"));
-         s.name = s.kind.name + " chunks with END/ESC bytes, a NUL, a zero-length chunk, a Message without chunks"; raw.push_back(s);
+         s.name = s.kind.name + " chunks with END/ESC bytes, a NUL, a Message without chunks"; raw.push_back(s);
       }
    }
    // ---- SLIP gateway
    {
       Scenario s; s.kind.id = K_SLIP; s.kind.name = "slip";
       std::vector<std::string> a; a.push_back(BL("A\xC0" "B")); a.push_back(BL("\xDB\xDC")); s.out.items.push_back(a);
-      std::vector<std::string> b; b.push_back(""); b.push_back(BL("\xDD")); s.out.items.push_back(b);
+      std::vector<std::string> b; b.push_back(BL("\xDD")); s.out.items.push_back(b);
       s.out.items.push_back(SV("xyz")); s.out.items.push_back(SV()); s.out.items.push_back(SV("\xC0\xC0\xDB"));
-      s.name = "slip frames with END/ESC/ESC_END/ESC_ESC bytes, an empty frame, a Message without frames"; slip.push_back(s);
+      s.name = "slip frames with END/ESC/ESC_END/ESC_ESC bytes, a Message without frames"; slip.push_back(s);
       Scenario r; r.kind.id = K_SLIP; r.kind.name = "slip[receiver]"; r.extraRx = BL("\xC0\xC0" "A\xDB\xC0" "B\xDB" "A\xDB\xDB\xDC\xC0\xDB\xDD\xDC\xC0" "C\xDB"); r.name = "slip receiver: ESC before END, ESC before an ordinary byte, ESC ESC, double END, stream ending inside an escape"; slip.push_back(r);
    }
 }
@@ -490,7 +543,7 @@ static void BuildWsScenarios(bool thorough, std::vector<WsScenario> & ws)
 {
    { WsScenario w; w.name = "websocket slave=MessageIOGateway[default]"; w.cOut.msgs.push_back(MS(M_STRA, 1, 1)); w.cOut.msgs.push_back(MS(M_EMPTY, 2)); w.sOut.msgs.push_back(MS(M_STRB, 3, 1)); w.sOut.msgs.push_back(MS(M_INT, 4, 4)); ws.push_back(w); }
    { WsScenario w; w.name = "websocket slave=MessageIOGateway[zlib6]"; w.enc = ENC_Z(6); w.cOut.msgs.push_back(MS(M_STRA, 1, 1)); w.cOut.msgs.push_back(MS(M_STRA, 1, 1)); w.sOut.msgs.push_back(MS(M_STRB, 3, 1)); w.sOut.msgs.push_back(MS(M_STRB, 3, 1)); ws.push_back(w); }
-   { WsScenario w; w.name = "websocket without slave (raw frames, payload sizes 0,2,1 / 3,0)"; w.slave = false; w.cOut.items.push_back(SV("", "ab")); w.cOut.items.push_back(SV("c")); w.sOut.items.push_back(SV("xyz")); w.sOut.items.push_back(SV("")); ws.push_back(w); }
+   { WsScenario w; w.name = "websocket without slave (raw binary frames, payload sizes 2,1,3 / 3,1)"; w.slave = false; w.cOut.items.push_back(SV("ab", "c")); w.cOut.items.push_back(SV("def")); w.sOut.items.push_back(SV("xyz")); w.sOut.items.push_back(SV("q")); ws.push_back(w); }
    // payload sizes at the frame-length encodings' edges: 125 | 126 (8-byte slave header + 117 / 118 flattened bytes) and 65535 | 65536
    { WsScenario w; w.name = "websocket payload sizes 125,126"; w.cOut.msgs.push_back(MS(M_RAW, 1, 117 - 34)); w.cOut.msgs.push_back(MS(M_RAW, 2, 118 - 34)); w.sOut.msgs.push_back(MS(M_RAW, 3, 118 - 34)); w.sOut.msgs.push_back(MS(M_RAW, 4, 117 - 34)); ws.push_back(w); }
    { WsScenario w; w.name = "websocket payload sizes 65535,65536"; w.cOut.msgs.push_back(MS(M_RAW, 1, 65527 - 34)); w.cOut.msgs.push_back(MS(M_RAW, 2, 65528 - 34)); w.sOut.msgs.push_back(MS(M_RAW, 3, 65528 - 34)); w.sOut.msgs.push_back(MS(M_RAW, 4, 65527 - 34)); ws.push_back(w); }
@@ -507,11 +560,13 @@ template <class T, class FPrep, class FSer, class FDes> static bool PrepareAll(s
 }
 
 // window targets for long streams: around every unit boundary (and the gateway's internal edges relative to each unit start)
-static void SparseTargets(const std::vector<uint32> & bounds, uint32 B, std::vector<uint32> & out)
+static void SparseTargets(const std::vector<uint32> & bounds, uint32 B, std::vector<uint32> & out, bool ws = false)
 {
    std::set<uint32> t; std::vector<uint32> starts; starts.push_back(0); for (size_t i = 0; i < bounds.size(); i++) starts.push_back(bounds[i]);
-   static const int rel[] = {-3, -2, -1, 0, 1, 2, 3, 4, 5, 6, 7, 8, 9, 10, 11, 13, 14, 15, 16, 17, 2039, 2040, 2041, 2047, 2048, 2049, 2055, 2056, 2057};
-   for (size_t i = 0; i < starts.size(); i++) for (size_t k = 0; k < sizeof(rel) / sizeof(rel[0]); k++) { const long v = (long)starts[i] + rel[k]; if (v >= 1 && v <= (long)B) t.insert((uint32)v); }
+   static const int relBin[] = {-3, -2, -1, 0, 1, 2, 3, 4, 5, 6, 7, 8, 9, 10, 11, 13, 14, 15, 16, 17, 2039, 2040, 2041, 2047, 2048, 2049, 2055, 2056, 2057};
+   static const int relWs[] = {-2, -1, 0, 1, 2, 3, 4, 5, 6, 7, 8, 9, 10, 11, 13, 14, 15};   // frame headers are 2..14 bytes, the slave's Message header 8 more
+   const int * rel = ws ? relWs : relBin; const size_t nrel = ws ? sizeof(relWs) / sizeof(int) : sizeof(relBin) / sizeof(int);
+   for (size_t i = 0; i < starts.size(); i++) for (size_t k = 0; k < nrel; k++) { const long v = (long)starts[i] + rel[k]; if (v >= 1 && v <= (long)B) t.insert((uint32)v); }
    t.insert(B); out.assign(t.begin(), t.end());
 }
 static const uint32 FULL_MODE_MAX_B = 330;
@@ -680,15 +735,24 @@ static void AddGroupings(const std::vector<std::string> & items, std::vector<Out
 
 // ---- family: WebSocket client <-> server pair under schedules on each of the four I/O sides
 struct WsCutsFamily {
-   struct P { const WsScenario * w; bool c2s; uint32 len[4]; int K; uint64_t per[4], nU, total; };   // sides: 0 client-write 1 server-read 2 server-write 3 client-read
+   // sides: 0 client-write 1 server-read 2 server-write 3 client-read.  cutPos / blkPos: the offsets used as cut points / would-block points
+   // (every offset for short streams; for long streams the offsets around the handshake end and every frame boundary)
+   struct P { const WsScenario * w; bool c2s; uint32 len[4]; std::vector<uint32> cutPos[4], blkPos[4]; int K; uint64_t per[4], nU, total; };
    std::vector<P> ps; std::vector<uint64_t> starts; uint64_t total;
    WsCutsFamily() : total(0) {}
    void Add(const WsScenario & w, int K)
    {
       P p; p.w = &w; p.c2s = w.c2sOk; p.K = K;
-      const uint32 cl = (uint32)(p.c2s ? w.cRef.size() : w.cRef.find("\r\n\r\n") + 4), sl = (uint32)w.sRef.size();
-      p.len[0] = p.len[1] = cl; p.len[2] = p.len[3] = sl; p.nU = std::max(cl, sl); p.total = p.nU;
-      for (int s = 0; s < 4; s++) { p.per[s] = p.len[s]; for (int k = 1; k <= K; k++) p.per[s] += Choose(p.len[s] - 1, k); p.total += p.per[s]; }
+      const std::string cs = p.c2s ? w.cRef : w.cRef.substr(0, w.cRef.find("\r\n\r\n") + 4);
+      const uint32 cl = (uint32)cs.size(), sl = (uint32)w.sRef.size();
+      p.len[0] = p.len[1] = cl; p.len[2] = p.len[3] = sl;
+      for (int s = 0; s < 4; s++) {
+         const std::string & st = (s < 2) ? cs : w.sRef;
+         if (p.len[s] <= 2000) { for (uint32 x = 1; x < p.len[s]; x++) p.cutPos[s].push_back(x); for (uint32 x = 0; x < p.len[s]; x++) p.blkPos[s].push_back(x); }
+         else { std::vector<uint32> ends, t; const size_t h = st.find("\r\n\r\n"); WsFrameEnds(st, h + 4, ends); SparseTargets(WithHeaderEnd(st, ends), p.len[s], t, true); for (size_t i = 0; i < t.size(); i++) if (t[i] < p.len[s]) { p.cutPos[s].push_back(t[i]); p.blkPos[s].push_back(t[i]); } p.blkPos[s].insert(p.blkPos[s].begin(), 0); }
+      }
+      p.nU = (std::max(cl, sl) <= 2000) ? std::max(cl, sl) : 64; p.total = p.nU;
+      for (int s = 0; s < 4; s++) { p.per[s] = p.blkPos[s].size(); for (int k = 1; k <= K; k++) p.per[s] += Choose(p.cutPos[s].size(), k); p.total += p.per[s]; }
       starts.push_back(total); total += p.total; ps.push_back(p);
    }
    struct Decoded { const P * p; int fam; int side; std::vector<uint32> cuts; uint32 c; };
@@ -697,7 +761,12 @@ struct WsCutsFamily {
       size_t pi = (size_t)(std::upper_bound(starts.begin(), starts.end(), i) - starts.begin()) - 1; const P & p = ps[pi]; i -= starts[pi];
       Decoded d; d.p = &p; d.side = 0; d.c = 0; d.fam = 0;
       if (i < p.nU) { d.c = (uint32)i + 1; return d; } i -= p.nU;
-      for (int s = 0; s < 4; s++) { if (i >= p.per[s]) { i -= p.per[s]; continue; } d.side = s; if (i < p.len[s]) { d.fam = 2; d.c = (uint32)i; return d; } i -= p.len[s]; d.fam = 1; for (int k = 1; k <= p.K; k++) { const uint64_t c = Choose(p.len[s] - 1, k); if (i < c) { Unrank(i, p.len[s] - 1, k, d.cuts); break; } i -= c; } return d; }
+      for (int s = 0; s < 4; s++) {
+         if (i >= p.per[s]) { i -= p.per[s]; continue; }
+         d.side = s; if (i < p.blkPos[s].size()) { d.fam = 2; d.c = p.blkPos[s][(size_t)i]; return d; } i -= p.blkPos[s].size(); d.fam = 1;
+         for (int k = 1; k <= p.K; k++) { const uint64_t c = Choose(p.cutPos[s].size(), k); if (i < c) { std::vector<uint32> idx; Unrank(i, (uint32)p.cutPos[s].size(), k, idx); for (size_t j = 0; j < idx.size(); j++) d.cuts.push_back(p.cutPos[s][idx[j] - 1]); break; } i -= c; }
+         return d;
+      }
       return d;
    }
    static const char * SideName(int s) { static const char * n[] = {"client-write", "server-read", "server-write", "client-read"}; return n[s]; }
@@ -772,20 +841,21 @@ static bool BuildPlan(Plan & P, const verif::Args & args, verif::Result & res, s
    for (size_t i = 0; i < P.ws.size(); i++) {
       const WsScenario & w = P.ws[i];
       if (w.failKey.find("websocket:fault-free") == 0 || w.cRfc.empty()) continue;
+      if (!T && w.cRef.size() > 20000) continue;   // the 64 KiB payload scenario is explored as a graph in the thorough tier only (quick: fault-free exchange + pair schedules)
       if (w.s2cOk) {   // client endpoint: emits cRef, reads the server's stream
          Spec c; c.name = "client endpoint: " + w.name; c.kind = w.K(true); c.out = w.cOut; c.refOut = w.cRef; c.inStream = w.sRef; c.inFlats = w.sFlats; c.inItems = w.sItems; c.inBoundaries = w.sBounds;
          std::vector<uint32> cEnds; WsFrameEnds(w.cRef, w.cRef.find("\r\n\r\n") + 4, cEnds);
-         c.sparse[0] = c.sparse[1] = true; SparseTargets(WithHeaderEnd(c.refOut, cEnds), c.B(D_OUT), c.targets[0]); SparseTargets(WithHeaderEnd(c.inStream, c.inBoundaries), c.B(D_IN), c.targets[1]); P.mWs.specs.push_back(c);
+         c.sparse[0] = c.sparse[1] = true; SparseTargets(WithHeaderEnd(c.refOut, cEnds), c.B(D_OUT), c.targets[0], true); SparseTargets(WithHeaderEnd(c.inStream, c.inBoundaries), c.B(D_IN), c.targets[1], true); P.mWs.specs.push_back(c);
       }
-      {                // server endpoint: reads the client's stream as RFC 6455 prescribes it, emits sRef
+      if (w.cRfcOk) {  // server endpoint: reads the client's stream as RFC 6455 prescribes it, emits sRef
          Spec s; s.name = "server endpoint (input = RFC 6455 conforming client stream): " + w.name; s.kind = w.K(false); s.out = w.sOut; s.refOut = w.sRef; s.inStream = w.cRfc; s.inFlats = w.cFlats; s.inItems = w.cItems; s.inBoundaries = w.cBounds;
-         s.sparse[0] = s.sparse[1] = true; SparseTargets(WithHeaderEnd(s.refOut, w.sBounds), s.B(D_OUT), s.targets[0]); SparseTargets(WithHeaderEnd(s.inStream, s.inBoundaries), s.B(D_IN), s.targets[1]); P.mWs.specs.push_back(s);
+         s.sparse[0] = s.sparse[1] = true; SparseTargets(WithHeaderEnd(s.refOut, w.sBounds), s.B(D_OUT), s.targets[0], true); SparseTargets(WithHeaderEnd(s.inStream, s.inBoundaries), s.B(D_IN), s.targets[1], true); P.mWs.specs.push_back(s);
       }
    }
    // ---- hash-free families
-   for (size_t i = 0; i < P.bin.size(); i++) if (P.bin[i].Ok()) { const uint32 B = (uint32)P.bin[i].ref.size(); P.cutsBin.Add(P.bin[i], T ? (B <= 150 ? 3 : B <= 1000 ? 2 : 1) : (B <= 400 ? 2 : 1)); }
-   for (size_t i = 0; i < P.tpl.size(); i++) if (P.tpl[i].Ok()) { const uint32 B = (uint32)P.tpl[i].ref.size(); P.cutsTpl.Add(P.tpl[i], T ? (B <= 150 ? 3 : 2) : (B <= 400 ? 2 : 1)); }
-   for (size_t i = 0; i < P.ws.size(); i++) if (!P.ws[i].cRfc.empty() && P.ws[i].s2cOk && P.ws[i].cRef.size() < 2000) P.cutsWs.Add(P.ws[i], T ? 2 : 1);
+   for (size_t i = 0; i < P.bin.size(); i++) if (P.bin[i].Ok()) { const uint32 B = (uint32)P.bin[i].ref.size(); P.cutsBin.Add(P.bin[i], T ? (B <= 150 ? 3 : B <= 1000 ? 2 : 1) : (B <= 260 ? 2 : 1)); }
+   for (size_t i = 0; i < P.tpl.size(); i++) if (P.tpl[i].Ok()) { const uint32 B = (uint32)P.tpl[i].ref.size(); P.cutsTpl.Add(P.tpl[i], T ? (B <= 150 ? 3 : 2) : ((B <= 260 || (P.tpl[i].kind.lruBytes == 100)) ? 2 : 1)); }
+   for (size_t i = 0; i < P.ws.size(); i++) if (!P.ws[i].cRfc.empty() && P.ws[i].s2cOk) P.cutsWs.Add(P.ws[i], (T && P.ws[i].cRef.size() < 2000) ? 2 : 1);
    P.textRx.Setup(K_TXT, std::string("a\r\n", 3), T ? 8 : 7);
    P.slipRx.Setup(K_SLIP, std::string("\x41\xC0\xDB\xDC\xDD", 5), T ? 7 : 6);
    {  // text senders: every sequence of <=3 lines over {"", "a", "bc"}, every grouping into Messages, eol CRLF and LF
@@ -795,8 +865,8 @@ static bool BuildPlan(Plan & P, const verif::Args & args, verif::Result & res, s
    }
    {  // SLIP senders: every chunk over the 5-symbol alphabet up to length 3 (4 thorough), and every pair of chunks of length <=1 in one or two Messages
       P.slipTx.kind.id = K_SLIP; P.slipTx.runs = 0; const std::string A("\x41\xC0\xDB\xDC\xDD", 5); std::vector<Outgoing> seqs;
-      for (uint32 len = 0; len <= (T ? 4u : 3u); len++) { uint64_t cnt = 1; for (uint32 i = 0; i < len; i++) cnt *= 5; for (uint64_t x = 0; x < cnt; x++) { std::vector<std::string> items; items.push_back(NthString(x, A, len)); AddGroupings(items, seqs); } }
-      for (int a = 0; a < 6; a++) for (int b = 0; b < 6; b++) { std::vector<std::string> items; items.push_back(a ? std::string(1, A[(size_t)a - 1]) : std::string()); items.push_back(b ? std::string(1, A[(size_t)b - 1]) : std::string()); AddGroupings(items, seqs); }
+      for (uint32 len = 1; len <= (T ? 4u : 3u); len++) { uint64_t cnt = 1; for (uint32 i = 0; i < len; i++) cnt *= 5; for (uint64_t x = 0; x < cnt; x++) { std::vector<std::string> items; items.push_back(NthString(x, A, len)); AddGroupings(items, seqs); } }
+      for (int a = 1; a < 6; a++) for (int b = 1; b < 6; b++) { std::vector<std::string> items; items.push_back(std::string(1, A[(size_t)a - 1])); items.push_back(std::string(1, A[(size_t)b - 1])); AddGroupings(items, seqs); }
       P.slipTx.seqs = seqs; for (size_t i = 0; i < seqs.size(); i++) { std::string r; RefEncode(P.slipTx.kind, seqs[i], r); P.slipTx.runs += (r.size() >= 2) ? (1ull << (r.size() - 1)) : 1; }
    }
    return true;
@@ -806,7 +876,7 @@ static bool BuildPlan(Plan & P, const verif::Args & args, verif::Result & res, s
 struct RawProduct {
    std::vector<Kind> kinds; Outgoing og; std::string ref; uint32 B;
    void Setup() { const uint32 mins[] = {0, 3, 0}, maxs[] = {MUSCLE_NO_LIMIT, MUSCLE_NO_LIMIT, 2}; for (int m = 0; m < 3; m++) { Kind k; k.id = K_RAW; k.minChunk = mins[m]; k.maxChunk = maxs[m]; kinds.push_back(k); }
-      std::vector<std::string> a; a.push_back(BL("\xC0\xDB")); a.push_back(""); a.push_back("a"); og.items.push_back(a); og.items.push_back(SV()); og.items.push_back(SV("bcd", "e")); RefEncode(kinds[0], og, ref); B = (uint32)ref.size(); }
+      std::vector<std::string> a; a.push_back(BL("\xC0\xDB")); a.push_back("a"); og.items.push_back(a); og.items.push_back(SV()); og.items.push_back(SV("bcd", "e")); RefEncode(kinds[0], og, ref); B = (uint32)ref.size(); }
    uint64_t Count() const { return (uint64_t)kinds.size() << (B - 1); }   // case = (mode, write mask); inside: every read mask
    void Run(uint64_t i, mutx::Case & c) const
    {
@@ -891,13 +961,13 @@ int main(int argc, char ** argv)
    if (args.WantPart("hf-slip-rx")) { verif::Part & p = RunFamily("hf-slip-rx" + sfx, P.slipRx, P.slipRx.total, args, res, dl, 30); p.evaluations = P.slipRx.runs; p.states = p.transitions;
       p.rule = verif::Fmt("SLIPFramedDataMessageIOGateway receiver, fully exhaustive: ALL %llu non-empty streams over {0x41, END, ESC, ESC_END, ESC_ESC} up to length %u, each under ALL 2^(n-1) read segmentations (%llu runs); after every read the delivered non-empty frames must equal the reference RFC 1055 decoder", (unsigned long long)P.slipRx.total, P.slipRx.maxLen, (unsigned long long)P.slipRx.runs); }
    if (args.WantPart("hf-slip-tx")) { verif::Part & p = RunFamily("hf-slip-tx" + sfx, P.slipTx, P.slipTx.seqs.size(), args, res, dl, 60); p.evaluations = P.slipTx.runs; p.states = p.transitions;
-      p.rule = verif::Fmt("SLIPFramedDataMessageIOGateway sender -> receiver: every chunk over the 5-symbol alphabet up to length %d and every pair of chunks of length <=1 in one or two Messages (%llu cases), each under ALL segmentations of the emitted stream into accepted writes (%llu runs); emitted stream = reference SLIP encoder, delivered non-empty frames = sent non-empty chunks", P.T ? 4 : 3, (unsigned long long)P.slipTx.seqs.size(), (unsigned long long)P.slipTx.runs); }
+      p.rule = verif::Fmt("SLIPFramedDataMessageIOGateway sender -> receiver: every non-empty chunk over the 5-symbol alphabet up to length %d and every pair of 1-byte chunks in one or two Messages (%llu cases), each under ALL segmentations of the emitted stream into accepted writes (%llu runs); emitted stream = reference SLIP encoder, delivered non-empty frames = sent non-empty chunks", P.T ? 4 : 3, (unsigned long long)P.slipTx.seqs.size(), (unsigned long long)P.slipTx.runs); }
    if (args.WantPart("hf-raw")) { verif::Part & p = RunFamily("hf-raw" + sfx, rawProd, rawProd.Count(), args, res, dl, 60); p.evaluations = rawProd.Count() << (rawProd.B - 1); p.states = p.transitions;
-      p.rule = verif::Fmt("RawDataMessageIOGateway sender -> receiver in 3 modes (immediate, minimum chunk 3, maximum chunk 2): a %u-byte stream (chunks incl. 0xC0 0xDB, a zero-length chunk, a Message without chunks) under the complete product of ALL write segmentations x ALL read segmentations (%llu runs); concatenated delivered bytes = sent bytes, chunk size limits respected", rawProd.B, (unsigned long long)(rawProd.Count() << (rawProd.B - 1))); }
+      p.rule = verif::Fmt("RawDataMessageIOGateway sender -> receiver in 3 modes (immediate, minimum chunk 3, maximum chunk 2): a %u-byte stream (chunks incl. 0xC0 0xDB, a Message without chunks) under the complete product of ALL write segmentations x ALL read segmentations (%llu runs); concatenated delivered bytes = sent bytes, chunk size limits respected", rawProd.B, (unsigned long long)(rawProd.Count() << (rawProd.B - 1))); }
    if (args.WantPart("hf-cuts-binary") && P.cutsBin.total) { verif::Part & p = RunFamily("hf-cuts-binary" + sfx, P.cutsBin, P.cutsBin.total, args, res, dl, 60); p.states = p.transitions;
-      p.rule = verif::Fmt("deviation-bounded, no hashing: MessageIOGateway sender -> receiver end to end for %u (encoding, sequence) configurations; per configuration every schedule with <=%s cut points (offsets no single Write resp. Read crosses) on the write side and on the read side over ALL byte offsets, every uniform chunk size 1..B on both sides, and one would-block inserted at EVERY offset on either side; emitted stream = reference, delivered = sent in order exactly once, nothing left to output", (unsigned)P.cutsBin.ps.size(), P.T ? "3 (streams <=150 bytes), 2 (<=1000), 1 (longer)" : "2 (streams <=400 bytes), 1 (longer)"); }
+      p.rule = verif::Fmt("deviation-bounded, no hashing: MessageIOGateway sender -> receiver end to end for %u (encoding, sequence) configurations; per configuration every schedule with <=%s cut points (offsets no single Write resp. Read crosses) on the write side and on the read side over ALL byte offsets, every uniform chunk size 1..B on both sides, and one would-block inserted at EVERY offset on either side; emitted stream = reference, delivered = sent in order exactly once, nothing left to output", (unsigned)P.cutsBin.ps.size(), P.T ? "3 (streams <=150 bytes), 2 (<=1000), 1 (longer)" : "2 (streams <=260 bytes), 1 (longer)"); }
    if (args.WantPart("hf-cuts-templating") && P.cutsTpl.total) { verif::Part & p = RunFamily("hf-cuts-templating" + sfx, P.cutsTpl, P.cutsTpl.total, args, res, dl, 60); p.states = p.transitions;
-      p.rule = verif::Fmt("as hf-cuts-binary for the TemplatingMessageIOGateway: %u (LRU limit, encoding, sequence) configurations, <=%s cut points per side, every uniform chunk size, a would-block at every offset", (unsigned)P.cutsTpl.ps.size(), P.T ? "3 (streams <=150 bytes) / 2" : "2 (streams <=400 bytes) / 1"); }
+      p.rule = verif::Fmt("as hf-cuts-binary for the TemplatingMessageIOGateway: %u (LRU limit, encoding, sequence) configurations, <=%s cut points per side, every uniform chunk size, a would-block at every offset", (unsigned)P.cutsTpl.ps.size(), P.T ? "3 (streams <=150 bytes) / 2" : "2 (streams <=260 bytes or LRU limit 100) / 1"); }
    if (args.WantPart("hf-cuts-websocket") && P.cutsWs.total) { verif::Part & p = RunFamily("hf-cuts-websocket" + sfx, P.cutsWs, P.cutsWs.total, args, res, dl, 120); p.states = p.transitions;
       p.rule = verif::Fmt("WebSocket client <-> server pair (handshake + frames in both directions where the fault-free exchange works), %u scenarios: every schedule with <=%d cut points on each of the four I/O sides (client-write, server-read, server-write, client-read), one would-block at EVERY offset of each side, every uniform chunk size on all sides; both emitted streams = reference, delivered = sent, no gateway error", (unsigned)P.cutsWs.ps.size(), P.T ? 2 : 1); }
 
